@@ -142,7 +142,12 @@ pub enum Mix {
 pub fn random_case(seed: u64, label: &str, index: u64, mix: Mix) -> HistoryCase {
     let mut r = Rng::derive(seed, label, index);
     let (profile, origin) = match mix {
-        Mix::Schema => match r.below(10) {
+        Mix::Schema => match r.below(40) {
+            0 => (Profile::wide(), "wide"),
+            1 => (Profile::deep(), "deep"),
+            2 => (if r.chance(1, 8) { Profile::long_list() } else { Profile::many_docs() }, "long-list/many-docs"),
+            3 => (Profile::many_docs(), "many-docs-16"),
+            _ => match r.below(10) {
             0..=4 => (Profile::tiny(), "tiny"),
             5..=7 => (Profile::general(), "general"),
             8 => (
@@ -155,16 +160,23 @@ pub fn random_case(seed: u64, label: &str, index: u64, mix: Mix) -> HistoryCase 
                 "many-docs",
             ),
             _ => (Profile::adversarial(), "adversarial"),
+            },
         },
         Mix::Names => match r.below(10) {
             0..=6 => (Profile::adversarial(), "adversarial"),
             7 => (
-                Profile {
-                    max_depth: 6,
-                    n_elem_names: (1, 3),
-                    ..Profile::adversarial()
+                if r.chance(1, 4) {
+                    Profile { pool: gen::Pool::Adversarial, ..Profile::deep() }
+                } else if r.chance(1, 3) {
+                    Profile::wide()
+                } else {
+                    Profile {
+                        max_depth: 6,
+                        n_elem_names: (1, 3),
+                        ..Profile::adversarial()
+                    }
                 },
-                "adversarial-deep",
+                "adversarial-deep/wide",
             ),
             _ => (Profile::general(), "general"),
         },
@@ -1038,4 +1050,159 @@ pub fn run_case(case: &HistoryCase, oracle: Oracle, rep: &mut Report) {
             rep.violation("panic", p, case.to_json());
         }
     }
+}
+
+// ---------------------------------------------------------------------------------------
+// Threshold families: deterministic histories that cross size / count / depth / length
+// boundaries which small random documents never reach (powers of two in particular)
+// ---------------------------------------------------------------------------------------
+
+fn el(name: &str, kids: Vec<Elem>) -> Elem {
+    let mut e = Elem::new(name);
+    e.items = kids.into_iter().map(gen::Item::Elem).collect();
+    e
+}
+
+fn leafy(name: &str) -> Elem {
+    let mut e = Elem::new(name);
+    e.attrs.push(("id".into(), "1".into()));
+    e.items.push(gen::Item::Elem(Elem::new("leaf")));
+    e.items.push(gen::Item::Elem(Elem::new("leaf")));
+    e.items.push(gen::Item::Text("t".into()));
+    e
+}
+
+fn chain(names: &dyn Fn(usize) -> String, depth: usize, inner: Elem) -> Elem {
+    let mut cur = inner;
+    for d in (0..depth).rev() {
+        cur = el(&names(d), vec![cur]);
+    }
+    cur
+}
+
+pub fn threshold_cases(heavy: bool) -> Vec<HistoryCase> {
+    let mut out: Vec<HistoryCase> = Vec::new();
+    let mut push = |origin: String, docs: Vec<Doc>| out.push(HistoryCase::plain(&format!("threshold:{}", origin), docs));
+    let doc = |e: Elem| Doc::plain(e);
+
+    // T1: a parent occurring N times, each time with the child; then seen once more
+    let mut ns: Vec<usize> = vec![254, 255, 256, 257, 258, 511, 512, 513];
+    if heavy {
+        ns.extend_from_slice(&[65_535, 65_536, 65_537]);
+    }
+    for &n in &ns {
+        let p = || el("p", vec![Elem::new("c")]);
+        let r = el("r", (0..n).map(|_| p()).collect());
+        push(format!("T1-occurrences-{}", n), vec![doc(r.clone())]);
+        push(format!("T1-occurrences-{}+1doc", n), vec![doc(r), doc(el("r", vec![p()]))]);
+    }
+    // T2: exactly N same-named children inside ONE occurrence of an already known parent
+    let mut ns: Vec<usize> = vec![255, 256, 257, 512, 768, 1024];
+    if heavy {
+        ns.extend_from_slice(&[65_536, 131_072]);
+    }
+    for &n in &ns {
+        let small = el("r", vec![Elem::new("item")]);
+        let big = el("r", (0..n).map(|_| Elem::new("item")).collect());
+        push(format!("T2-siblings-{}-small-big", n), vec![doc(small.clone()), doc(big.clone())]);
+        push(format!("T2-siblings-{}-big-small", n), vec![doc(big.clone()), doc(small.clone())]);
+        push(format!("T2-siblings-{}-big-big", n), vec![doc(big.clone()), doc(big.clone())]);
+        // the same inside one document: two occurrences of p
+        let one = el("r", vec![el("p", vec![Elem::new("item")]), el("p", (0..n).map(|_| Elem::new("item")).collect())]);
+        push(format!("T2-siblings-{}-one-doc", n), vec![doc(one)]);
+    }
+    // T3: M distinct child names / attribute names under one parent
+    for &m in &[63usize, 64, 65, 66, 70, 127, 128, 129, 255, 256, 257, 258, 300] {
+        let kids = |upto: usize| -> Vec<Elem> { (0..upto).map(|i| Elem::new(&format!("c{}", i))).collect() };
+        // (i) a late child repeats inside the same occurrence
+        let mut k = kids(m);
+        k.push(Elem::new(&format!("c{}", m - 1)));
+        push(format!("T3-distinct-{}-late-repeat", m), vec![doc(el("wide", k))]);
+        // (ii) ... only in a later document
+        let mut k2 = kids(m);
+        k2.push(Elem::new(&format!("c{}", m - 1)));
+        push(format!("T3-distinct-{}-late-repeat-later-doc", m), vec![doc(el("wide", kids(m))), doc(el("wide", kids(3))), doc(el("wide", k2))]);
+        // (iii) a later occurrence lacks the last four children (start-tag and empty-tag spelling)
+        let two = el("r", vec![el("p", kids(m)), el("p", kids(m - 4))]);
+        push(format!("T3-distinct-{}-late-absent", m), vec![doc(two)]);
+        let two = el("r", vec![el("p", kids(m)), Elem::new("p")]);
+        push(format!("T3-distinct-{}-all-absent", m), vec![doc(two)]);
+        // (iv) text-only late children repeating (String vs Vec<String>)
+        let mut k3: Vec<Elem> = (0..m)
+            .map(|i| {
+                let mut e = Elem::new(&format!("c{}", i));
+                e.items.push(gen::Item::Text("v".into()));
+                e
+            })
+            .collect();
+        let last = k3[m - 1].clone();
+        k3.push(last);
+        push(format!("T3-distinct-{}-late-text-repeat", m), vec![doc(el("wide", k3))]);
+        // (v) M distinct attributes, a later occurrence lacks the last three
+        let mut a = Elem::new("p");
+        for i in 0..m {
+            a.attrs.push((format!("a{}", i), "v".into()));
+        }
+        let mut b = Elem::new("p");
+        for i in 0..m - 3 {
+            b.attrs.push((format!("a{}", i), "v".into()));
+        }
+        push(format!("T3-attributes-{}", m), vec![doc(el("r", vec![a, b]))]);
+    }
+    // T4: deep chains (same name, distinct names, alternating), with structure at the bottom
+    let mut depths: Vec<usize> = vec![7, 8, 9, 10, 12, 17, 33, 63, 64, 65, 127, 128, 129, 130, 131, 140, 200];
+    if heavy {
+        depths.extend_from_slice(&[255, 256, 257, 258, 300]);
+    }
+    for &d in &depths {
+        let same = |_: usize| "a".to_string();
+        let distinct = |i: usize| format!("n{}", i + 1);
+        let alt = |i: usize| if i % 2 == 0 { "section".to_string() } else { "item".to_string() };
+        push(format!("T4-depth-{}-same-name", d), vec![doc(chain(&same, d, leafy("a")))]);
+        push(format!("T4-depth-{}-distinct", d), vec![doc(chain(&distinct, d, leafy("bottom")))]);
+        push(format!("T4-depth-{}-alternating", d), vec![doc(chain(&alt, d, leafy("item")))]);
+        // two deep branches that differ only at the top, same names below
+        if d <= 140 {
+            let below = |_: usize| "s".to_string();
+            let left = el("left", vec![chain(&below, d, leafy("s"))]);
+            let right = el("right", vec![chain(&below, d, leafy("s"))]);
+            push(format!("T4-depth-{}-two-branches", d), vec![doc(el("r", vec![left, right]))]);
+            // the deep part only arrives with the third document
+            push(
+                format!("T4-depth-{}-third-doc", d),
+                vec![doc(el("n1", vec![])), doc(el("n1", vec![Elem::new("n2")])), doc(chain(&distinct, d, leafy("bottom")))],
+            );
+        }
+    }
+    // T5: long text / CDATA nodes with a multi-byte character straddling a power-of-two offset
+    for &b in &[64usize, 128, 255, 256, 257, 512, 1024, 2048, 4096] {
+        for (ci, ch) in ["é", "€", "😀"].iter().enumerate() {
+            for k in 1..=3usize {
+                if b <= k {
+                    continue;
+                }
+                let text = format!("{}{}{}", "x".repeat(b - k), ch, "tail");
+                let mut t = Elem::new("t");
+                t.items.push(gen::Item::Text(text.clone()));
+                let mut c = Elem::new("t");
+                c.items.push(gen::Item::CData(text.clone()));
+                let mut w = Elem::new("w");
+                w.attrs.push(("k".into(), text.clone()));
+                w.items.push(gen::Item::Text(text));
+                push(format!("T5-text-{}-{}-{}", b, ci, k), vec![doc(el("r", vec![t, w.clone()])), doc(el("r", vec![c, w]))]);
+            }
+        }
+    }
+    out
+}
+
+/// thresholds that are cheap enough for the relational monitors (a subset, by label prefix)
+pub fn threshold_cases_light() -> Vec<HistoryCase> {
+    threshold_cases(false)
+        .into_iter()
+        .filter(|c| {
+            let docs_small = c.docs.iter().map(|d| d.root.count_elems()).sum::<usize>() <= 1400;
+            docs_small
+        })
+        .collect()
 }
